@@ -633,7 +633,7 @@ class Executor:
                 self.events.append(Event("write", guard, node, place=c, value=None, text=rv))
             return True
         # struct / closure / enum struct-variant / array: opaque, fields by position when listed
-        if re.match(r"^(\{closure@|\[|[\w:<>, &'\[\]()]+\s*\{|[\w:<>, &']+::\w+(\(|$)|[A-Z]\w*\(.*\)$|[\w:<>, &']+$)", rv):
+        if re.match(r"^(\{closure@|\[|[\w:<>, &'\[\]()]+\s*\{|[\w:<>, &']+::\w+(\(|$)|[A-Z]\w*\(.*\)$|[A-Za-z_][\w:]*::<[^()]*>\(.*\)$|[\w:<>, &']+$)", rv):
             self.kill(env, c)
             env[c] = Val(self.ctx.sym("agg." + c, 64), 64)
             if is_ref_write:
